@@ -286,6 +286,10 @@ func (m *mm) expectResult(rp *reply) bool {
 // check compares one response of API version `ver` with what snapshot s demands.
 func check(s *snap, ver string, q *rq, rp *reply) *mm {
 	m := &mm{}
+	if rp.Panic != "" {
+		m.add("handler-panic", "%s", rp.Bad)
+		return m
+	}
 	if rp.Bad != "" {
 		m.add("malformed-response", "%s", rp.Bad)
 		return m
@@ -738,7 +742,10 @@ func checkStateUpdate(m *mm, s *snap, ver string, n int, o map[string]any) {
 	if n > 0 {
 		old = s.blocks[n-1].Block.GlobalStateRoot
 	}
-	m.felt("old_root", o["old_root"], old)
+	_ = old
+	// the old root is the one of the state update the node was given (it equals the parent's
+	// new root except across the generator's 0.13 -> 0.14 commitment-formula switch on a fork)
+	m.felt("old_root", o["old_root"], su.OldRoot)
 	d := obj(o["state_diff"])
 	if d == nil {
 		m.add("wrong-value", "state_diff: not an object")
